@@ -63,6 +63,16 @@ NEEDS = {
  "C16-c": "a struct with a struct-typed attribute declared textually before that attribute's type (types() now rejects forward references)",
  "C17-c": "an earlier function calling g with an argument that fails to analyse, and a later function calling g (the callee is removed from the table around the argument loop and not restored on the early return)",
  "C18-c": "an assignment to a mutable variable of an enclosing block from inside a loop or if body (binding copies the looked-up value into the current block's table)",
+ "C02-d": "a field read v.attr inside a nested block (body or condition) of a struct value declared in an enclosing block, e.g. a parameter (the StructValue arm looks only in the current block's table)",
+ "C03-d": "a visible outer x, a let x inside a nested body, then a read / field read / assignment of x after that body or in a later sibling body (the shadowing let overwrites the entry in the ancestor block that owns the shadowed declaration)",
+ "C05-d": "an outer loop with a nested break, containing directly a nested loop whose body ends in a loop-level return (the inner loop's return status suppresses the outer loop's epilogue, SetLabel loop_end included)",
+ "C06-d": "redundant brackets around a single value that ends up as the left operand of a binary node: (x) * 3 + 2 (the fast path returns before the operation attached to the outer node)",
+ "C08-d": "the same immutable variable in two directly adjacent operand positions: x * x, f(x, x) (the second load instruction is dropped as a duplicate of the stack top, its register is still read)",
+ "C09-d": "an if / else-if whose condition has an and/or, at odd block distance from the function body (LogicCondition forwarded to the parent with right register and result register swapped)",
+ "C10-d": "an if with Some(empty else body) and no else-if (SetLabel if_else skipped, the conditional still targets it)",
+ "C11-d": "a return two or more blocks deep and no return exactly one block deep (JumpFunctionReturn pushed into the direct parent's stack only)",
+ "C12-d": "the same name declared in two different ancestor blocks and a read or assignment from a still deeper block that does not declare it (get_value_name returns the outermost declaration)",
+ "C18-d": "a let NAME in a nested body where NAME is visible only from an enclosing block (the value is 'updated in place' in the current block's table, where it does not exist, so it is recorded nowhere)",
  "C20-b": "a program with code after break / continue / return, whose error list is then serialised (serde(skip) on the three ForbiddenCodeAfter… kinds)",
 }
 def sh(cmd, **kw):
